@@ -18,6 +18,9 @@ import (
 // scopeTypes is filled by the init() of the generated file scope_gen.go (absent in a plain build).
 var scopeTypes = map[string]reflect.Type{}
 
+// scopeTwins: per generated C16 type a constructor of a value of a different struct type with the same printed name.
+var scopeTwins = map[string]func() interface{}{}
+
 func init() {
 	register("scope-run", scopeRun)
 	register("scope-types", scopeListTypes)
@@ -41,6 +44,7 @@ type scopeCase struct {
 	API      string            `json:"api"`
 	MapKind  string            `json:"mapkind"` // int | string | bool | float | iface
 	URL      string            `json:"url"`
+	Decoys   []string          `json:"decoys"`
 }
 
 type scopeResult struct {
@@ -202,12 +206,23 @@ func scopeDoStruct(c *scopeCase) error {
 				vs.SetRule(scopeRM(c.Unscoped))
 			}
 		}
+		// decoys: rule sets (with an unknown rule name, which would always show) registered for twin types - struct types
+		// that differ from the scenario's types but print the same; they must apply to nothing
+		setDecoys := func() {
+			for _, n := range c.Decoys {
+				if mk, ok := scopeTwins[n]; ok {
+					vs.SetRule(valid.RM{"A": "p_decoy=1", "B": "p_decoy=1"}, mk())
+				}
+			}
+		}
 		if c.API == "vstruct" {
+			setDecoys()
 			setUn()
 			setTyped()
 		} else { // registration order must not matter
 			setTyped()
 			setUn()
+			setDecoys()
 		}
 		for n, fn := range scopeFnMap(c) {
 			vs.SetValidFn(n, fn)
